@@ -86,7 +86,8 @@ def gen_c09_page(rng, refs=False):
 
 def gen_dir(rng):
     return {name: gen_c09_page(rng)
-            for name in rng.sample(["alpha.zo", "beta.zo", "sub/gamma.zo", "z9.zo", "a.zo", "a.zo.d/x.zo"], rng.randint(2, 3))}
+            for name in rng.sample(["alpha.zo", "beta.zo", "sub/gamma.zo", "z9.zo", "a.zo", "a.zo.d/x.zo", "todo.zo", "tod.zo", "sub/quiz.zo",
+                                    "memo.zo"], rng.randint(2, 4))}
 
 
 def titles_of(note):
@@ -183,6 +184,45 @@ def spec_checks(q, gs, os_, sel_model, notes, out):
                 if any(len(v) > 1 for v in digits.values()):
                     trig = "order_none_lexicographic"
                 probs.append(("O none = page path then line number", got_text[:200], trig))
+    # group headers: every note stands under headers whose labels are its own values (file and tag dimensions; the i-th
+    # dimension uses the i-th ruler; no header of a level where the note's value is empty)
+    if sel_model == "NOTE" and gs and not probs:
+        rul = ["#" * 32, "=" * 24, "+" * 16, "-" * 8]
+        tagidx = {"#": 6, "@": 7, "%": 8, "+": 9}
+
+        def value(g, n):
+            if g == "file":
+                stem = n[0][:-3]
+                return "[[%s]]" % stem if n[0].endswith(".zo") and ".zo" not in stem else None
+            if g in tagidx:
+                return " | ".join(g + t for t in sorted(n[tagidx[g]]))
+            return None
+        byzid = {}
+        for n in notes:
+            m = re.match(r"(?:\d{6} )?(\d{6}#\w{2,3})(?: |$)", n[2].strip())
+            if m:
+                byzid[m.group(1)] = n
+        cur = [None] * 4
+        for line in (out.split("\n") if out else []):
+            lvl = next((i for i, r in enumerate(rul) if line.startswith(r + " ") or line == r), None)
+            if lvl is not None:
+                cur[lvl] = line[len(rul[lvl]) + 1:]
+                for j in range(lvl + 1, 4):
+                    cur[j] = None
+                continue
+            m = re.match(r"[-ox~<>] (?:P\d )?(?:\d{6} )?(\d{6}#\w{2,3})(?: |$)", line)
+            if not m or m.group(1) not in byzid:
+                continue
+            n = byzid[m.group(1)]
+            for i, g in enumerate(gs[:4]):
+                exp = value(g, n)
+                if exp is not None and (cur[i] or "") != exp:
+                    probs.append(("group header labels equal the note's own value of the dimension",
+                                  "note %s of page %s stands under %r at level %d (G %s), its own value is %r" % (
+                                      m.group(1), n[0], cur[i], i + 1, g, exp), None))
+                    break
+            if probs:
+                break
     # value selections (tags, property keys / values, links, files), ungrouped: every distinct value of the selected
     # notes exactly once; count(...) is the number of those values
     IDX = {"AREA": 6, "CONTEXT": 7, "PERSON": 8, "PROJECT": 9, "LINKS": 10}
@@ -255,7 +295,7 @@ def run(oc, tier, seed):
                 m = eng.call("execute", sel_model, [GKEYS[g] for g in gs], [OKEYS[o] for o in os_] if os_ else
                              ["NOTE_TYPE", "PRIORITY", "MODIFY_DATE", "CREATE_DATE"], notes)
                 case = {"query": q, "dir": "generated(seed=%d,dir=%d)" % (seed, di)}
-                if out[0] == "ok" and m != out:
+                if out[0] == "ok" and (m != out or (sel_model == "NOTE" and gs)):
                     # look for a failing input of the property itself first
                     for what, got, trig in spec_checks(q, gs, os_, sel_model, notes, out[1]):
                         if not trig:
